@@ -158,6 +158,7 @@ type Violation struct {
 	Tape      []TapeEntry       `json:"tape"`
 	Stack     []string          `json:"stack,omitempty"`
 	Harness   string            `json:"harness"`
+	FSPlan    []FSOp            `json:"fs_plan,omitempty"`
 	Model     map[string]uint64 `json:"model,omitempty"`
 	Decisions []int             `json:"decisions,omitempty"`
 }
@@ -496,6 +497,7 @@ func (in *Interp) reportPanic(p goPanic) {
 		v.RepoFile = shortPath(p.repoFile)
 	}
 	v.Tape = in.buildTape(m)
+	v.FSPlan = append([]FSOp(nil), in.fs.plan...)
 	in.res.Violations = append(in.res.Violations, v)
 }
 
@@ -515,6 +517,7 @@ func (in *Interp) reportAt(kind, id, msg string, model map[string]uint64, site s
 		v.RepoFile = shortPath(v.RepoFile)
 	}
 	v.Tape = in.buildTape(model)
+	v.FSPlan = append([]FSOp(nil), in.fs.plan...)
 	in.res.Violations = append(in.res.Violations, v)
 }
 
